@@ -95,6 +95,22 @@ fn ident_shown(buf: &[u8]) -> Sigs {
 }
 
 pub fn replay(pid: &'static str, v: &Value) -> Vec<Failure> {
+    if v.get("kind").and_then(|k| k.as_str()) == Some("tracker_callsign") {
+        // the identifications of one aircraft in order: the record shows the last one
+        let mut planes = rsadsb_common::Airplanes::new();
+        let mut want = None;
+        for h in v["history"].as_array().cloned().unwrap_or_default() {
+            let Some(b) = h.as_str().and_then(bits::unhex) else { continue };
+            if let Decoded::Ok(f) = decode(&b) {
+                if let Some(refdec::Val::S(cn)) = refdec::actual(&f).get("me.cn").cloned() {
+                    want = Some(cn);
+                }
+                planes.action(f, (52.0, 4.0), 500.0);
+            }
+        }
+        let shown = planes.get(ICAO([0xab, 0xc0, 0x01])).and_then(|s| s.callsign.clone());
+        return if shown != want { vec![Failure { sig: "C08/tracker_callsign".into(), msg: format!("the latest identification decodes to {want:?}, the tracker record shows {shown:?}"), replay: v.clone() }] } else { vec![] };
+    }
     let mut out = vec![];
     if v.get("kind").and_then(|k| k.as_str()) == Some("icao") {
         let a = v.get("addr").and_then(|x| x.as_u64()).unwrap_or(0) as u32;
@@ -345,6 +361,8 @@ pub fn run_c08(ctx: &Ctx) -> ! {
     const REP16: [u8; 16] = [0, 1, 2, 26, 27, 31, 32, 33, 47, 48, 49, 57, 58, 59, 62, 63];
     let mut st = parallel(|w, st| {
         let mut rng = ctx.rng(8, w as u64);
+        let mut planes = rsadsb_common::Airplanes::new();
+        let mut last_fed: Option<Vec<u8>> = None;
         let mut case = |st: &mut Stats, rng: &mut TestRng, carrier: usize, chars: &[u8; 8], note: &str| {
             let b = ident_frame(rng, carrier, chars);
             let raw = refdec::callsign_raw(&b, 32 + 9);
@@ -370,6 +388,28 @@ pub fn run_c08(ctx: &Ctx) -> ! {
                 st.samples.push(json!({"frame": bits::hex(&b), "chars": raw, "from": note}));
             }
             run_case(st, "fields", &b, &eval);
+            // ... and it is what the tracker shows for that aircraft from then on: every
+            // identification squitter goes to one long-lived record
+            if carrier < 2 {
+                if let Decoded::Ok(frame) = decode(&b) {
+                    let mut c = b.clone();
+                    set(&mut c, 9, 24, 0xabc001);
+                    if let (Some(refdec::Val::S(cn)), Decoded::Ok(f2)) = (refdec::actual(&frame).get("me.cn").cloned(), decode(&c)) {
+                        st.eval();
+                        let r = std::panic::catch_unwind(std::panic::AssertUnwindSafe(|| {
+                            planes.action(f2, (52.0, 4.0), 500.0);
+                            planes.get(ICAO([0xab, 0xc0, 0x01])).and_then(|s| s.callsign.clone())
+                        }));
+                        if let Ok(shown) = r {
+                            if shown.as_deref() != Some(cn.as_str()) && !st.failures.contains_key("C08/tracker_callsign") {
+                                let hist: Vec<String> = last_fed.iter().map(|x| bits::hex(x)).chain(std::iter::once(bits::hex(&c))).collect();
+                                st.fail(Failure { sig: "C08/tracker_callsign".into(), msg: format!("the latest identification of the aircraft decodes to {cn:?}, its tracker record shows {shown:?} (frames {hist:?})"), replay: json!({"kind": "tracker_callsign", "history": hist}) });
+                            }
+                        }
+                        last_fed = Some(c);
+                    }
+                }
+            }
         };
         let mut idx = 0usize;
         // every code at every position, others 'A'
